@@ -218,6 +218,13 @@ def c10_script(rng, name, nports, mode, dev, length):
     for _ in range(3):
         t += 1
         ops += second(ports, t)
+    # datagrams from addresses that are no peers (unknown, pending as initiator, pending as responder) must never reach the interface
+    probe = ipv4_packet(ip4(2), ip4(1), b"x") if dev == "tun" else eth_frame("020000000001", "020000000002")
+    ops += ["nconnect 1 p40", "ndrop %d" % 0]
+    ops += ["nkeys-noop"] * 0
+    for src in ("p40", "p41"):
+        for ty in (0, 1, 2, 255, 0x10):
+            ops.append("ninject 1 %s %s" % (src, hx(bytes([ty]) + probe)))
     for _ in range(length):
         a = rng.choice(ports)
         k = rng.below(6)
@@ -446,7 +453,9 @@ def restart_script(rng, name, who_dials):
     if who_dials == 2:
         ops += ["nconnect 2 p1"]
     # if the restarted node does not dial, its peer finds out when the old session times out (peer timeout) and re-dials
-    for _ in range(8 if who_dials == 2 else 60 + 130):
+    # a dialling restarted node is answered by the old session's lingering handshake (up to 60 s) before a new responder takes over
+    # (lingering handshakes of old sessions answer new pings with their last message for up to 60 s; the bound of the property is peer timeout + retry horizon)
+    for _ in range(60 + 130):
         t += 1
         ops += second([1, 2], t)
     for a, b in ((1, 2), (2, 1), (1, 2)):
